@@ -4,13 +4,13 @@ import common
 from common import VERIF, COQ, BIN, CheckError
 
 CFG = {
-    "C16": dict(props="Props/C16.v", cone=["Base/Str.v", "Base/Json.v", "Scan/GoTypes.v", "Scan/GoTypesLemmas.v", "Scan/GoTypesRun.v"], target="Scan/GoTypesRun.vo",
+    "C16": dict(props="Props/C16.v", cone=["Base/Str.v", "Base/Json.v", "Scan/GoTypes.v", "Scan/GoTypesLemmas.v", "Scan/Embed.v", "Scan/EmbedLemmas.v", "Scan/GoTypesRun.v"], target="Scan/GoTypesRun.vo",
                 sub="c16", report="c16.json", cases="coq-c16", quick=["-extra", "40"], thorough=["-extra", "1200"],
                 where="codescan.Run definitions, encoding/json encodings and decoding verdicts of compiled model types vs scan / encode / sval / decodes",
-                model="hand-written Gallina model of encoding/json Marshal/Unmarshal acceptance for the fragment, of codescan's type walk (buildFromType, buildFromStruct, parseJSONTag) and of reference validity of scanned definitions (Scan/GoTypes.v)",
+                model="hand-written Gallina model of encoding/json Marshal/Unmarshal acceptance for the fragment, of codescan's type walk (buildFromType, buildFromStruct, parseJSONTag) and of reference validity of scanned definitions (Scan/GoTypes.v); of field promotion through embedded structs by encoding/json (depth rule, ties hidden) and of the order in which buildFromStruct writes embedded members and declared fields (Scan/Embed.v)",
                 assumptions=["the reference reading of a scanned definition: JSON-schema draft 4 with integer formats as Go ranges, float as single precision, date-time as RFC 3339, byte as base64, x-nullable as 'null accepted' (harness/cmd/scancheck/refvalid.go = sval on the fragment, compared every run); go-openapi/validate is recorded as a second opinion only (it skips the type check of typed schemas with numeric/date formats)",
                              "encoding/json and the Go compiler are the implementation's side of the comparison; values are built by a reflection driver (zero/full/max/min/empty/random)",
-                             "floats, time.Time, named types, ',string', embedded structs, interface{}, json.RawMessage, []byte are decided on the implementation only"]),
+                             "floats, time.Time, named types, ',string', embedded pointers, embeddings with a json name, what an overwritten property leaves behind (x-nullable, $ref siblings), interface{}, json.RawMessage, []byte are decided on the implementation only"]),
     "C18": dict(props="Props/C18.v", cone=["Base/Str.v", "Tools/Decimal.v", "Scan/DocVocab.v", "Scan/DocVocabLemmas.v", "Scan/DocVocabRun.v"], target="Scan/DocVocabRun.vo",
                 sub="c18", report="c18.json", cases="coq-c18", quick=["-random", "20"], thorough=["-random", "400"], needs_swagger=True,
                 where="doc-comment lines of generated struct fields vs emit; scanned validations vs parse of those lines",
@@ -54,6 +54,8 @@ def run(ctx):
         "evaluations": rep["evaluations"], "distinct_nontrivial": rep["distinct_nontrivial"], "rule": rep["rule"],
         "samples": rep["samples"][:3] or [{"note": "none"}], "input_distribution": rep["coverage"], "model_cases": rep["coverage"].get("model:cases", 0), "model_mismatches": len(mism),
     }
+    if ctx.pid == "C16":
+        coverage["declarations_in_theorem_domain"] = f"{ctx.domain[0]} of {ctx.domain[1]} struct declarations with embedded members satisfy ewf (hypothesis of C16_embedding_agree); the model is compared with the implementation on all of them"
     return common.conclude(ctx, cq, rep["violations"], broken, coverage, cfg["assumptions"],
                            f"make -C coq {cfg['props'].replace('.v', '.vo')} (coqc 8.16.1) + coqc {cfg['props']} for Print Assumptions",
                            cfg["model"], mismatch_input={"model_mismatches": mism[:4]} if mism else None, max_lines=8)
